@@ -2,7 +2,11 @@
 a `prog` (straight-line list of constructor calls, JSON) to a real Python graph function,
 and the canonical description of a built SynthDef.
 
-prog = {"ir": [default, ...], "kr": [default, ...], "ins": [instr, ...]}
+prog = {"ir": [default, ...], "kr": [default, ...], "ins": [instr, ...], "mce": [[start, count], ...]}
+"mce": the `count` consecutive instructions from `start` (same kind, same operator / class / rate) are written as
+ONE multichannel call in the Python graph function (list arguments where the channels differ); for the model
+and the evaluators the program is still the per-channel instruction sequence (multichannel expansion must be
+equivalent to the per-channel calls, in order).
 arg   = ["c", "p/q"] | ["c", "p/q", "i"] (the same number written as a Python int) | ["c", "0", "z"] (-0.0)
       | ["v", i, k] (channel k of the value of instruction i) | ["p", "ir"|"kr", j]
 instr = ["U", name, rate, [arg...]] | ["un", pyname, a] | ["bin", pyname, a, b]
@@ -103,6 +107,80 @@ def is_num(x):
     return isinstance(x, (int, float)) and not isinstance(x, bool)
 
 
+def mce_call(group, arg):
+    """One multichannel call for a group of same-kind instructions; returns the list of channel values."""
+    import sc3.synth.ugen as ugn
+    n = len(group)
+    k = group[0][0]
+    if any(g[0] != k for g in group):
+        raise Unsupported('mce group of different kinds')
+
+    def col(j):
+        """argument j of every channel: the common value, or a list when the channels differ"""
+        js = [g[j] for g in group]
+        if all(x == js[0] for x in js):
+            return arg(js[0]), False
+        return [arg(x) for x in js], True
+
+    if k == 'madd':
+        (a, la), (b, lb), (c, lc) = col(1), col(2), col(3)
+        if not (la or lb or lc):
+            raise Unsupported('mce group without differing arguments')
+        if la and not isinstance(a[0], (int, float)):
+            r = ugn.ChannelList(a).madd(b, c)
+        elif not la and not isinstance(a, (int, float)):
+            r = a.madd(b, c)
+        else:
+            r = ugn.MulAdd.new(a, b, c)
+    elif k in ('sum3', 'sum4'):
+        cols = [col(j) for j in range(1, len(group[0]))]
+        if not any(l for _, l in cols):
+            raise Unsupported('mce group without differing arguments')
+        r = (ugn.Sum3 if k == 'sum3' else ugn.Sum4).new(*[v for v, _ in cols])
+    elif k == 'bin':
+        name = group[0][1]
+        if any(g[1] != name for g in group):
+            raise Unsupported('mce group of different operators')
+        (a, la), (b, lb) = col(2), col(3)
+        if not (la or lb):
+            raise Unsupported('mce group without differing arguments')
+        left = ugn.ChannelList(a) if la else a
+        right = ugn.ChannelList(b) if lb else b
+        if name in INFIX:
+            r = INFIX[name](left, right)
+        else:
+            if is_num(left):
+                raise Unsupported('method op on a number')
+            r = getattr(left, name)(right)
+    elif k == 'un':
+        name = group[0][1]
+        if any(g[1] != name for g in group):
+            raise Unsupported('mce group of different operators')
+        a, la = col(2)
+        if not la:
+            raise Unsupported('mce group without differing arguments')
+        left = ugn.ChannelList(a)
+        r = UN_INFIX[name](left) if name in UN_INFIX else getattr(left, name)()
+    elif k == 'U':
+        name, rate = group[0][1], group[0][2]
+        if any(g[1] != name or g[2] != rate for g in group):
+            raise Unsupported('mce group of different classes')
+        mod, cname, rates, arity, call = CATALOGUE[name]
+        if call is not None or rate not in rates:
+            raise Unsupported('mce group of a class with a special call')
+        cols = [([arg(g[3][j]) for g in group], True) if any(g[3][j] != group[0][3][j] for g in group)
+                else (arg(group[0][3][j]), False) for j in range(arity)]
+        if not any(l for _, l in cols):
+            raise Unsupported('mce group without differing arguments')
+        r = getattr(_cls(name), 'new' if name == 'Rand' else METHOD[rate])(*[v for v, _ in cols])
+    else:
+        raise Unsupported('mce group of kind ' + str(k))
+    r = list(r) if isinstance(r, list) else [r]
+    if len(r) != n:
+        raise Unsupported('multichannel call gave %d channels for %d instructions' % (len(r), n))
+    return r
+
+
 def make_func(prog):
     """Build the real Python graph function of a prog."""
     import sc3.synth.ugen as ugn
@@ -133,7 +211,16 @@ def make_func(prog):
                 raise Unsupported('channel of a scalar value')
             return v
 
-        for ins_ in ins:
+        groups = {g[0]: g[1] for g in prog.get('mce', []) if g[1] >= 2}
+        pos = 0
+        while pos < len(ins):
+            if pos in groups:
+                n = groups[pos]
+                vals.extend(mce_call(ins[pos:pos + n], arg))
+                pos += n
+                continue
+            ins_ = ins[pos]
+            pos += 1
             k = ins_[0]
             if k == 'U':
                 _, name, rate, args = ins_
